@@ -51,6 +51,35 @@ FUNCTIONS = [
     ('isotp/tpsock/__init__.py', 'socket', 'set_fc_opts'),
     ('isotp/tpsock/__init__.py', 'socket', 'set_ll_opts'),
     ('isotp/tpsock/__init__.py', 'socket', 'bind'),
+    ('isotp/protocol.py', 'TransportLayerLogic', '_process_rx'),
+    ('isotp/protocol.py', 'TransportLayerLogic', '_check_timeouts_rx'),
+    ('isotp/protocol.py', 'TransportLayerLogic', '_stop_receiving'),
+    ('isotp/protocol.py', 'TransportLayerLogic', '_empty_rx_buffer'),
+    ('isotp/protocol.py', 'TransportLayerLogic', '_stop_sending_flow_control'),
+    ('isotp/protocol.py', 'TransportLayerLogic', '_start_rx_cf_timer'),
+    ('isotp/protocol.py', 'TransportLayerLogic', '_start_rx_fc_timer'),
+    ('isotp/protocol.py', 'TransportLayerLogic', '_append_rx_data'),
+    ('isotp/protocol.py', 'TransportLayerLogic', '_request_tx_flowcontrol'),
+    ('isotp/protocol.py', 'TransportLayerLogic', '_start_reception_after_first_frame_if_valid'),
+    ('isotp/protocol.py', 'TransportLayerLogic', '_stop_sending'),
+    ('isotp/protocol.py', 'TransportLayerLogic', '_process_tx'),
+    ('isotp/protocol.py', 'TransportLayerLogic', '_make_flow_control'),
+    ('isotp/protocol.py', 'TransportLayerLogic', '_make_tx_msg'),
+    ('isotp/protocol.py', 'TransportLayerLogic', '_pad_message_data'),
+    ('isotp/protocol.py', 'TransportLayerLogic', 'stop_sending'),
+    ('isotp/protocol.py', 'TransportLayerLogic', 'stop_receiving'),
+    ('isotp/protocol.py', 'TransportLayerLogic', 'reset'),
+    ('isotp/protocol.py', 'TransportLayerLogic', 'is_tx_throttled'),
+    ('isotp/protocol.py', 'TransportLayerLogic', '_trigger_error'),
+    ('isotp/protocol.py', 'TransportLayerLogic', 'available'),
+    ('isotp/protocol.py', 'TransportLayerLogic', 'transmitting'),
+    ('isotp/protocol.py', 'RateLimiter', 'allowed_bytes'),
+    ('isotp/protocol.py', 'RateLimiter', 'reset'),
+    ('isotp/protocol.py', 'RateLimiter', 'enable'),
+    ('isotp/protocol.py', 'RateLimiter', 'disable'),
+    ('isotp/tools.py', 'FiniteByteGenerator', 'remaining_size'),
+    ('isotp/tools.py', 'FiniteByteGenerator', 'depleted'),
+    ('isotp/tools.py', 'FiniteByteGenerator', 'total_length'),
     ('isotp/tools.py', 'Timer', 'is_timed_out'),
     ('isotp/tools.py', 'Timer', 'is_stopped'),
     ('isotp/tools.py', 'Timer', 'stop'),
@@ -68,11 +97,22 @@ CONST_CLASSES = [
     ('isotp/tpsock/__init__.py', 'flags'),
     ('isotp/tpsock/__init__.py', 'LinkLayerProtocol'),
     ('isotp/tpsock/opts.py', ''),           # module-level integer constants (option numbers)
+    ('isotp/protocol.py', 'TransportLayerLogic.RxState'),
+    ('isotp/protocol.py', 'TransportLayerLogic.TxState'),
 ]
 
 
 class Unsupported(Exception):
     pass
+
+
+# Expressions of the embedding are pure.  `x = f(...)` where f changes the object (or pops a queue) is therefore dumped as the STATEMENT-level
+# call `"x:=f"(...)`: the `Meths.proc` of the theorem gives both the new environment and the binding of x.
+EFFECTFUL_CALLEES = {
+    'self._start_reception_after_first_frame_if_valid',
+    'self.tx_queue.get', 'self.tx_queue.get_nowait', 'self.rx_queue.get', 'self.rx_queue.get_nowait',
+    'self.active_send_request.generator.consume',
+}
 
 
 def lstr(s):
@@ -123,7 +163,9 @@ def expr(n):
         if type(n.op) not in BINOPS:
             raise Unsupported(type(n.op).__name__)
         if isinstance(n.op, ast.Mod) and isinstance(n.left, ast.Constant) and isinstance(n.left.value, str):
-            raise Unsupported('string formatting')
+            # `"..." % values`: an opaque call (resolved by the `Meths` of the theorem: it yields some string); the operands are still evaluated
+            right = list(n.right.elts) if isinstance(n.right, ast.Tuple) else [n.right]
+            return '(.call "__format__" %s)' % args(right)
         return '(.binop .%s %s %s)' % (BINOPS[type(n.op)], expr(n.left), expr(n.right))
     if isinstance(n, ast.UnaryOp):
         if isinstance(n.op, ast.Not):
@@ -227,6 +269,11 @@ def stmt(n):
         if isinstance(n, ast.Assign):
             if len(n.targets) != 1:
                 raise Unsupported('multiple assignment')
+            if isinstance(n.value, ast.Call) and (dotted(n.value.func) or '') in EFFECTFUL_CALLEES:
+                c = n.value
+                kws = ''.join('#' + k.arg for k in c.keywords if k.arg)
+                return '(.expr (.call %s %s))' % (lstr('%s:=%s%s' % (target(n.targets[0]), dotted(c.func), kws)),
+                                                  args(list(c.args) + [k.value for k in c.keywords]))
             return '(.assign %s %s)' % (lstr(target(n.targets[0])), expr(n.value))
         if isinstance(n, ast.AnnAssign):
             if n.value is None:
@@ -253,6 +300,18 @@ def stmt(n):
             return '(.ite %s %s %s)' % (expr(n.test), block(n.body), block(n.orelse))
         if isinstance(n, ast.Pass):
             return '.pass'
+        if isinstance(n, ast.Try):
+            # only `try: <ONE assignment or expression statement> except Exception [as e]: ...` (no else / finally): see `PStmt.tryExcept`
+            if n.orelse or n.finalbody or len(n.handlers) != 1 or len(n.body) != 1 or not isinstance(n.body[0], (ast.Assign, ast.Expr)):
+                raise Unsupported('Try (shape)')
+            h = n.handlers[0]
+            if h.type is not None and dotted(h.type) != 'Exception':
+                raise Unsupported('except ' + (dotted(h.type) or '?'))
+            pre = [] if h.name is None else ['(.assign %s (.call "__caught__" .nil))' % lstr(h.name)]
+            hb = block(h.body)
+            for t in reversed(pre):
+                hb = '(.cons %s\n    %s)' % (t, hb)
+            return '(.tryExcept %s %s)' % (block(n.body), hb)
         if isinstance(n, ast.FunctionDef):
             # a nested function definition binds a function object to a local name; its body is not part of this function's behaviour
             return '(.assign %s (.call "__function__" (.cons (.strLit %s) .nil)))' % (lstr(n.name), lstr(n.name))
